@@ -5,6 +5,7 @@ import (
 	"time"
 
 	"github.com/zmap/zcrypto/x509"
+	"github.com/zmap/zcrypto/x509/ct"
 	"github.com/zmap/zlint/v3/lint"
 )
 
@@ -153,10 +154,23 @@ func genBoundary(out *Output, rng *Rng, perLint int, cfg lint.Configuration) {
 				rds = append(rds, redate{x, 0})
 			}
 			for _, rd := range rds {
-				{
+				// decoy: every other time the object carries (notAfter, embedded SCT timestamps) sits on the other side
+				// of the date, within hours of notBefore - only notBefore may decide
+				for _, decoy := range []bool{false, true} {
 					d, dl := rd.d, rd.dl
+					if decoy && (d.Year() < 1971 || d.Year() > 2200) {
+						continue
+					}
 					c2 := *cc.Cert
 					c2.NotBefore = d.Add(dl)
+					if decoy {
+						other := d.Add(time.Hour)
+						if dl >= 0 {
+							other = d.Add(-time.Hour)
+						}
+						c2.NotAfter = other
+						c2.SignedCertificateTimestampList = []*ct.SignedCertificateTimestamp{{Timestamp: uint64(other.UnixMilli())}, {Timestamp: uint64(other.Add(time.Minute).UnixMilli())}}
+					}
 					c := &c2
 					s := abstractReal(l.Name, string(l.Source), l.EffectiveDate, l.IneffectiveDate,
 						func() interface{} { return l.Lint() }, cfg,
@@ -196,6 +210,18 @@ func genBoundary(out *Output, rng *Rng, perLint int, cfg lint.Configuration) {
 				for _, dl := range []time.Duration{-time.Second, 0, time.Second} {
 					c2 := *cc.CRL
 					c2.ThisUpdate = d.Add(dl)
+					// decoy: nextUpdate and the entries' revocation times on the other side of the date
+					if k%2 == 1 {
+						other := d.Add(time.Hour)
+						if dl >= 0 {
+							other = d.Add(-time.Hour)
+						}
+						c2.NextUpdate = other
+						c2.RevokedCertificates = append([]x509.RevokedCertificate(nil), c2.RevokedCertificates...)
+						for ri := range c2.RevokedCertificates {
+							c2.RevokedCertificates[ri].RevocationTime = other
+						}
+					}
 					c := &c2
 					s := abstractReal(l.Name, string(l.Source), l.EffectiveDate, l.IneffectiveDate,
 						func() interface{} { return l.Lint() }, cfg,
@@ -233,6 +259,16 @@ func genBoundary(out *Output, rng *Rng, perLint int, cfg lint.Configuration) {
 					c2 := *cc.Resp
 					c2.NextUpdate = d.Add(dl)
 					c := &c2
+					if dl != 0 {
+						// decoy: thisUpdate and producedAt on the other side of the date
+						c3 := c2
+						c3.ThisUpdate, c3.ProducedAt = d.Add(-dl*3600), d.Add(-dl*3600)
+						if o2 := observe(func() *lint.LintResult { return l.Execute(&c3, cfg) }); o2.Kind == "res" && o2.Status >= 3 && o2.Status <= 6 && !inWindowSpec(l.EffectiveDate, l.IneffectiveDate, c3.NextUpdate) {
+							out.Violate("C03|finding-outside-window:ocsp:"+l.Name, fmt.Sprintf("status %d reported for a response whose nextUpdate is outside the effective window (thisUpdate/producedAt inside)", o2.Status),
+								map[string]interface{}{"lint": l.Name, "file": cc.File, "nextUpdate": c3.NextUpdate.String(), "thisUpdate": c3.ThisUpdate.String()}, nil, nil)
+						}
+						n++
+					}
 					s := abstractReal(l.Name, string(l.Source), l.EffectiveDate, l.IneffectiveDate,
 						func() interface{} { return l.Lint() }, cfg,
 						func(i interface{}) bool { return i.(lint.OcspResponseLintInterface).CheckApplies(c) },
